@@ -39,6 +39,7 @@ type Config struct {
 	MaxDelayMs int
 	Partition  bool
 	Reorder    bool          // messages of one link and channel may overtake each other before GST
+	PermissivePV bool // the validator key signs whatever the state machine asks (no double-sign guard): the discipline of the state machine itself is observed
 	LongStall  time.Duration // >0: every node isolated for this long (past the 15-minute recover timeout)
 	Crashes    bool
 	Skew       bool
@@ -207,6 +208,7 @@ func drawConfig(c *kernel.Ctx, mode Mode) Config {
 	cfg.Reorder = cfg.MaxDelayMs > 0 && t.Bool(1, 3)
 	cfg.Crashes = t.Bool(1, 4)
 	cfg.Skew = t.Bool(1, 2)
+	cfg.PermissivePV = !cfg.Crashes && t.Bool(1, 4)
 	cfg.GST = time.Duration(t.Range(2, 40)) * time.Second
 	// a stall longer than the 15-minute recover timeout: the recover path
 	// (validator set switch, recover-typed proposals) runs
